@@ -622,8 +622,19 @@ func deepRealCase(r *rand.Rand) (*Grid, [][]Pt, int, bool) {
 	px := (ax-g.Ext[0])/g.Res + r.Int63n(1000)
 	py := (ay-g.Ext[1])/g.Res + r.Int63n(1000)
 	w := Window{G: g, X0: g.Ext[0] + px*g.Res, Y0: g.Ext[1] + py*g.Res, W: 3 + r.Int63n(6), Unit: max64(1, g.Res/4)}
+	rect := r.Intn(2) == 0 // rectilinear shell with an aligned hole: every hole vertex exactly below a vertical shell edge
+	if rect {
+		w.W = 8 + r.Int63n(5)
+	}
 	for try := 0; try < 20; try++ {
 		poly, _ := genValidPolygon(r, w)
+		if rect {
+			pp, okr := genRectilinear(r, w)
+			if !okr {
+				continue
+			}
+			poly = pp
+		}
 		ok := true
 		for _, ring := range poly {
 			for k := range ring {
